@@ -38,6 +38,7 @@
 #include <event2/bufferevent.h>
 #include <event2/keyvalq_struct.h>
 #include <event2/listener.h>
+#include "http-internal.h"   /* evcon->retry_cnt, only to pace the \"late_listen\" fault script */
 #include "mjson.h"
 
 #define EXT_TYPE (1u << 16) /* extension method PATCHY */
@@ -546,11 +547,30 @@ static void ev_put(const char *e, int i, int x)
 {
 	fprintf(evlog, "%s[\"%s\",%d,%d]", nev++ ? "," : "", e, i, x);
 }
+static int f_errcb_on, f_follow_in_cb, f_follow_made, f_follow_pending;
+static void f_err_cb(enum evhttp_request_error err, void *arg);
+static void f_done_cb(struct evhttp_request *req, void *arg);
+static void f_make(int i, const char *m)
+{
+	char uri[16]; int rc;
+	enum evhttp_cmd_type t = !strcmp(m, "HEAD") ? EVHTTP_REQ_HEAD : !strcmp(m, "POST") ? EVHTTP_REQ_POST : EVHTTP_REQ_GET;
+	freq[i] = evhttp_request_new(f_done_cb, (void *)(intptr_t)i);
+	if (f_errcb_on) evhttp_request_set_error_cb(freq[i], f_err_cb);
+	evhttp_add_header(evhttp_request_get_output_headers(freq[i]), "Host", "h");
+	if (t == EVHTTP_REQ_POST) evbuffer_add(evhttp_request_get_output_buffer(freq[i]), "pp", 2);
+	snprintf(uri, sizeof(uri), "/r%d", i);
+	rc = evhttp_make_request(evcon, freq[i], t, uri);
+	ev_put("make", i, rc);
+}
 static void f_done_cb(struct evhttp_request *req, void *arg)
 {
 	int i = (int)(intptr_t)arg;
 	fdone[i]++; ncb++;
 	ev_put("done", i, req && evhttp_request_get_response_code(req) != 0);
+	if (i == 0 && f_follow_in_cb && !f_follow_made) {   /* the application issues a follow-up request from the callback */
+		f_follow_made = 1; f_follow_pending = 0;
+		f_make(f_n++, "GET");
+	}
 }
 static void f_err_cb(enum evhttp_request_error err, void *arg)
 {
@@ -563,21 +583,32 @@ static void f_cancel(int i)
 	ev_put("cancel", i, 0);
 	evhttp_cancel_request(freq[i]);
 }
-static int f_all_done(void) { int i, n = 0; for (i = 0; i < f_n; i++) n += (fdone[i] || fcancelled[i]); return n >= f_n; }
+static int f_all_done(void) { int i, n = 0; for (i = 0; i < f_n; i++) n += (fdone[i] || fcancelled[i]); return n >= f_n && !f_follow_pending; }
 
 static void client_fault_run(FILE *f, jval *sc)
 {
 	jval *reqs = j_get(sc, "reqs"), *conns = j_get(sc, "conns"), *cancel = j_get(sc, "cancel");
 	char *ebuf = NULL; size_t elen = 0;
 	int cidx = -1, got = 0, sent = 0, i, dead_fd = -1, port = cli_port;
+	int late_listen = (int)j_int(sc, "late_listen", 0), autofree = (int)j_int(sc, "autofree", 0), alfd = lfd;
+	const char *follow = j_str(sc, "followup", "");
 	int cancel_i = cancel ? (int)j_int(cancel, "i", -1) : -1;
 	const char *cancel_when = cancel ? j_str(cancel, "when", "start") : "";
 	struct timeval tv; double t0;
 	long ms = (long)j_int(sc, "timeout_ms", 80);
 	evlog = open_memstream(&ebuf, &elen); nev = 0; ncb = 0; hang = 0;
 	memset(freq, 0, sizeof(freq)); memset(fdone, 0, sizeof(fdone)); memset(fcancelled, 0, sizeof(fcancelled));
-	f_n = reqs ? (int)reqs->n : 0; if (f_n > 8) f_n = 8; f_ncancel = 0;
+	f_n = reqs ? (int)reqs->n : 0; if (f_n > 6) f_n = 6; f_ncancel = 0;
 	cfd = -1;
+	f_errcb_on = (int)j_int(sc, "errcb", 0);
+	f_follow_in_cb = !strcmp(follow, "in_cb"); f_follow_made = 0; f_follow_pending = follow[0] != 0;
+	if (late_listen) { /* a bound socket that starts listening only after the first refused connect */
+		struct sockaddr_in sin; socklen_t sl = sizeof(sin);
+		alfd = socket(AF_INET, SOCK_STREAM, 0);
+		memset(&sin, 0, sizeof(sin)); sin.sin_family = AF_INET; sin.sin_addr.s_addr = htonl(INADDR_LOOPBACK);
+		bind(alfd, (struct sockaddr *)&sin, sizeof(sin)); getsockname(alfd, (struct sockaddr *)&sin, &sl);
+		port = ntohs(sin.sin_port); set_nonblock(alfd);
+	}
 	if (j_int(sc, "deadport", 0)) { /* a bound socket that does not listen: every connect is refused */
 		struct sockaddr_in sin; socklen_t sl = sizeof(sin);
 		dead_fd = socket(AF_INET, SOCK_STREAM, 0);
@@ -591,23 +622,24 @@ static void client_fault_run(FILE *f, jval *sc)
 	tv.tv_sec = 0; tv.tv_usec = 5000;
 	evhttp_connection_set_initial_retry_tv(evcon, &tv);
 	evhttp_connection_set_retries(evcon, (int)j_int(sc, "retries", 0));
-	for (i = 0; i < f_n; i++) {
-		const char *m = reqs->items[i]->str; char uri[16]; int rc;
-		enum evhttp_cmd_type t = !strcmp(m, "HEAD") ? EVHTTP_REQ_HEAD : !strcmp(m, "POST") ? EVHTTP_REQ_POST : EVHTTP_REQ_GET;
-		freq[i] = evhttp_request_new(f_done_cb, (void *)(intptr_t)i);
-		if (j_int(sc, "errcb", 0)) evhttp_request_set_error_cb(freq[i], f_err_cb);
-		evhttp_add_header(evhttp_request_get_output_headers(freq[i]), "Host", "h");
-		if (t == EVHTTP_REQ_POST) evbuffer_add(evhttp_request_get_output_buffer(freq[i]), "pp", 2);
-		snprintf(uri, sizeof(uri), "/r%d", i);
-		rc = evhttp_make_request(evcon, freq[i], t, uri);
-		ev_put("make", i, rc);
-	}
+	if (autofree) evhttp_connection_free_on_completion(evcon);
+	{ int n0 = f_n; f_n = 0; for (i = 0; i < n0; i++) { f_n = i + 1; f_make(i, reqs->items[i]->str); } }
 	if (!strcmp(cancel_when, "start")) f_cancel(cancel_i);
+	if (late_listen) {   /* the first connect attempt was refused; from now on the port accepts */
+		double tw = now_s();
+		while (evcon->retry_cnt == 0 && !f_all_done() && now_s() - tw < 15.0) event_base_loop(base, EVLOOP_NONBLOCK);
+		listen(alfd, 16);
+	}
 	t0 = now_s();
 	while (!f_all_done()) {
 		int fd, progressed = 0; char buf[4096]; ssize_t r;
 		event_base_loop(base, EVLOOP_NONBLOCK);
-		while ((fd = accept(lfd, NULL, NULL)) >= 0) {
+		if (!strcmp(follow, "after") && !f_follow_made) {   /* everything settled: the application makes a new request */
+			int k, all = 1;
+			for (k = 0; k < f_n; k++) all &= (fdone[k] || fcancelled[k]);
+			if (all) { f_follow_made = 1; f_follow_pending = 0; f_make(f_n++, "GET"); }
+		}
+		while ((fd = accept(alfd, NULL, NULL)) >= 0) {
 			progressed = 1;
 			/* the library has one connection at a time: a newcomer means the previous one is gone */
 			if (cfd >= 0) raw_close_abort();
@@ -639,10 +671,12 @@ static void client_fault_run(FILE *f, jval *sc)
 	ev_put("end", 0, 0);
 	/* teardown */
 	if (cfd >= 0) raw_close_abort();
-	for (i = 0; i < 5; i++) { int fd; event_base_loop(base, EVLOOP_NONBLOCK); while ((fd = accept(lfd, NULL, NULL)) >= 0) { cfd = fd; raw_close_abort(); } }
-	evhttp_connection_free(evcon); evcon = NULL; cur_bev = NULL;
+	for (i = 0; i < 5; i++) { int fd; event_base_loop(base, EVLOOP_NONBLOCK); while ((fd = accept(alfd, NULL, NULL)) >= 0) { cfd = fd; raw_close_abort(); } }
+	if (!autofree) evhttp_connection_free(evcon);   /* with free_on_completion the library owns the connection */
+	evcon = NULL; cur_bev = NULL;
 	for (i = 0; i < 5; i++) { int fd; event_base_loop(base, EVLOOP_NONBLOCK); while ((fd = accept(lfd, NULL, NULL)) >= 0) { cfd = fd; raw_close_abort(); } }
 	if (dead_fd >= 0) close(dead_fd);
+	if (late_listen) close(alfd);
 	fflush(evlog);
 	fprintf(f, "{\"ev\":[%.*s],\"late\":%d,\"hang\":%d}", (int)elen, ebuf ? ebuf : "", 0, hang);
 	fclose(evlog); free(ebuf); evlog = NULL;
@@ -661,6 +695,10 @@ static void run_scenario(jval *sc, FILE *out)
 	if (!strcmp(mode, "clientfault")) { client_fault_run(out, sc); fputc('\n', out); return; }
 	if (!bytes || bytes->t != J_STR || !segs) { fprintf(out, "{\"err\":\"bad scenario\"}\n"); return; }
 	reply_spec = j_get(sc, "reply"); route_spec = j_get(sc, "route");
+	if (reply_spec && j_get(reply_spec, "dct")) {   /* C26: evhttp_set_default_content_type(value | NULL); the string is not copied */
+		jval *d = j_get(reply_spec, "dct");
+		evhttp_set_default_content_type(http, d->t == J_STR ? d->str : NULL);
+	}
 	if (!strcmp(mode, "server") && route_spec) route_build(route_spec);
 	if (!strcmp(mode, "server")) apply_server_cfg(cfg);
 	for (i = 0; i < segs->n && !hang; i++) {
@@ -679,6 +717,7 @@ static void run_scenario(jval *sc, FILE *out)
 		obs[k].idx = realloc(obs[k].idx, (obs[k].nidx + 1) * sizeof(int));
 		obs[k].idx[obs[k].nidx++] = (int)i;
 	}
+	evhttp_set_default_content_type(http, "text/html; charset=ISO-8859-1");   /* library default again */
 	if (!strcmp(mode, "server") && route_spec) route_destroy();
 	fprintf(out, "{\"runs\":[");
 	for (k = 0; k < nobs; k++) {
